@@ -315,6 +315,11 @@ func getAdditionalImports(protoFile *protogen.File, goPackageForFile map[string]
 func additionalImportsForType(p protogen.GoImportPath, m *protogen.Message, goPackageForFile map[string]string) map[string]string {
 	res := map[string]string{}
 	for _, fld := range m.Fields {
+		if fld.Desc.IsMap() {
+			// the Go type of a map field is built from the entry's key and value types: the (synthetic) entry message is
+			// always local, a message or enum VALUE type may live in another package
+			fld = fld.Message.Fields[1]
+		}
 		switch fld.Desc.Kind() {
 		case protoreflect.MessageKind:
 			if ip := fld.Message.GoIdent.GoImportPath; ip != p {
